@@ -263,8 +263,9 @@ def validator_scenario(e, cfg):
     except ValueError:
         return dict(validator=which, accepted=False)
     depth0 = 1 if which.startswith("filler") else 0
-    e.prove(SymBool(e, z3.Not(p.escapes(depth0))), f"{which} accepts a path that leaves the dataset root",
-            dict(kind=f"validator-accepts-escaping-path:{which}", segs=["p"]))
+    e.prove(SymBool(e, z3.Not(p.escapes(depth0))), f"{which} accepts a path that leaves the dataset root"
+            + (f" (process working directory {cfg['cwd']})" if cfg.get("cwd") else ""),
+            dict(kind=f"validator-accepts-escaping-path:{which}", segs=["p"], cwd=cfg.get("cwd")))
     return dict(validator=which, accepted=True)
 
 
@@ -342,6 +343,15 @@ def _cell(cell):
         return st
     kind = cell["kind"]
     fn = {"reader": reader_scenario, "validator": validator_scenario, "writer": writer_scenario}[kind]
+    if cell.get("cwd"):
+        # the process working directory is part of the environment: the verdict of a validator must not depend on it
+        import os
+        old_cwd = os.getcwd()
+        os.chdir(cell["cwd"])
+        try:
+            return explore(lambda e: fn(e, cell))
+        finally:
+            os.chdir(old_cwd)
     return explore(lambda e: fn(e, cell))
 
 
@@ -349,10 +359,11 @@ def run(tier, seed):
     common.import_sedpack()
     problems = sympath.selftest(2 if tier == "quick" else 3)
     K = 3 if tier == "quick" else 4
-    cs = [dict(kind="validator", validator=v, K=K) for v in
+    cs = [dict(kind="validator", validator=v, K=max(K, 4)) for v in  # 4 parts: split/../../shards_list.json
           ("FileInfo.file_path", "ShardsList.relative_path_self", "filler.relative_path_from_split")]
     cs += [dict(kind="reader", op=op, K=(2 if tier == "quick" else 3)) for op in ("shard_infos", "check", "iterate")]
     cs += [dict(kind="writer", K=K)]
+    cs += [dict(c, cwd="/") for c in cs if c["kind"] == "validator"]
     # the protection must not depend on assert statements: the validator cells again under `python -O`
     cs += [dict(c, optimized=True) for c in cs if c["kind"] in ("validator", "writer")]
     st, per_cell, errors = par.run_cells(_cell, cs)
@@ -374,7 +385,8 @@ def run(tier, seed):
         if sig in seen:
             continue
         seen.add(sig)
-        viols.append(Violation(sig, f"{c['msg']} with {conc}", dict(kind=kind, paths=conc, model=m, optimized=("python -O" in c["msg"]))))
+        viols.append(Violation(sig, f"{c['msg']} with {conc}", dict(kind=kind, paths=conc, model=m, optimized=("python -O" in c["msg"]),
+                                                                     cwd=info.get("cwd"))))
     return Result(
         property_id=PROP, engine="symx + SymPath shim",
         explanation="Symbolic execution with z3 of the real path validators, of the readers' join sites (load, shard-info "
@@ -415,6 +427,9 @@ def replay(case):
     from sedpack.io.shard_file_metadata import ShardsList
     kind = case["kind"]
     paths = case["paths"]
+    if case.get("cwd"):
+        import os
+        os.chdir(case["cwd"])  # (the replay runs in its own process)
     with common.scratch_dir("vt17r_") as tmp:
         outer = tmp / "outer"
         root = outer / "ds"
